@@ -19,10 +19,19 @@ BoolArr = z3.ArraySort(z3.IntSort(), z3.BoolSort())
 _i, _j = z3.Ints("i_q j_q")
 
 
+# geometry of a map known only by identity (a child behind a window)
+AWc = z3.Function("AWc", z3.IntSort(), z3.IntSort())
+DWc = z3.Function("DWc", z3.IntSort(), z3.IntSort())
+ALc = z3.Function("ALc", z3.IntSort(), z3.IntSort())
+
+
 class Ref:
     """A reference to some object known only by identity (e.g. the value stored in a range)."""
     def __init__(self, ident, cls=None):
         self.ident, self.cls = ident, cls
+
+    def getattr_sym(self, attr):
+        return {"addr_width": AWc, "data_width": DWc, "alignment": ALc}.get(attr, lambda i: None)(self.ident)
 
 
 class MapView:
